@@ -8,7 +8,11 @@ package messages
 //@ spec tagBL(b ref) string
 //@ spec tagCS(b ref) string
 
+//@ ghostfield mBeginKV *fix.KeyValue
 //@ interface Builder assumed
+//@   method BeginString() (res *fix.KeyValue):
+//@     pure
+//@     ensures res == mBeginKV(self)
 //@   method BeginStringTag() (res string):
 //@     pure
 //@     ensures res == tagBS(self) && isdigits(res)
